@@ -128,7 +128,7 @@ class Ctx:
         jobrec["harness_secs"] = round(hsecs, 1)
         # non-triviality and samples are measured on the recorded trace
         self._scan_trace(trace, nontrivial, sample_filter)
-        if self.corrupt:
+        if self.corrupt and name != "known-finding-examples":      # the pinned examples of recorded findings are not a test bed
             self.corrupt_result = self.corrupt(self, d, trace, invariants)
             raise StopSelftest()
         skip = []
